@@ -166,4 +166,5 @@ def jobs(tier):
 
 
 def main(report, tier):
-    return summarize(report, runner.run_tasks(jobs(tier)), 'C07')
+    from . import mnode
+    return summarize(report, runner.run_tasks(jobs(tier) + mnode.jobs_for('C07', tier)), 'C07')
